@@ -168,6 +168,12 @@ Proof. exact getline_cmd_frame. Qed.
 Theorem C11_getline_var_frame : forall e sr v s s',
   do_getline e sr (TVar v) s = Some s' -> line s' = line s /\ fields s' = fields s.
 Proof. exact getline_var_frame. Qed.
+(* the same with the input mode spelled out: in default, CSV and TSV mode alike ([m] = None, Some 44,
+   Some 9: the fields of a record are whatever the mode's splitter gives, [split_mode]) a getline into
+   a variable -- unredirected, from a file, from a command -- changes neither $0 nor any field nor NF *)
+Theorem C11_getline_var_frame_every_mode : forall (m : option Z) fs cmds globals nav sr v s s',
+  do_getline (mkEnv fs cmds globals nav m) sr (TVar v) s = Some s' -> line s' = line s /\ fields s' = fields s.
+Proof. exact getline_var_frame_mode. Qed.
 (* ... and var receives the record read *)
 Theorem C11_getline_var_value : forall e sr v s s',
   do_getline e sr (TVar v) s = Some s' -> ret s' = 1 ->
@@ -178,7 +184,7 @@ Theorem C11_getline_main_line : forall e s name r rest,
   cur s = Some (name, r :: rest) ->
   exists s', do_getline e SMain TLine s = Some s' /\ ret s' = 1 /\
     NR s' = NR s + 1 /\ FNR s' = FNR s + 1 /\ FILENAME s' = FILENAME s /\
-    line s' = r /\ fields s' = split_ws r /\ vars s' = vars s /\ cur s' = Some (name, rest).
+    line s' = r /\ fields s' = split_mode e r /\ vars s' = vars s /\ cur s' = Some (name, rest).
 Proof. exact getline_main_line. Qed.
 (* getline var with a record available: var, NR, FNR -- not $0, not NF *)
 Theorem C11_getline_main_var : forall e s name r rest v,
@@ -297,10 +303,10 @@ Print Assumptions C11_nextfile_anywhere.
    both records are read and abandoned, END runs, no error *)
 Definition wit_next_prog : sprog :=
   mkProg [] [mkSRule (SPExpr (mkPat [SNext] CTrue)) (Some [])] [STrace 9 []] [].
-Definition wit_env : env := mkEnv [([102], [[97]; [98]])] [] [] false.
+Definition wit_env : env := mkEnv [([102], [[97]; [98]])] [] [] false None.
 Example C11_ex_next_in_pattern :
   match script_exec wit_env wit_next_prog 50 [[102]] [] with
-  | FOk _ s => NR s = 2 /\ out s = [OTrace 9 2 2 [102] [98] 1 0 []]
+  | FOk _ s => NR s = 2 /\ out s = [OTrace 9 2 2 [102] [98] 1 0 [] [[98]]]
   | _ => False
   end.
 Proof. vm_compute. split; reflexivity. Qed.
@@ -423,7 +429,7 @@ Print Assumptions C11_script_history_run_independent.
 (* the seeded-defect shape: /S/,/E/ { T(1) }  run on f1 = [a; b S] (range open at the end of the run),
    then on f2 = [c]: the second run selects nothing *)
 Definition ex_hist_env : env :=
-  mkEnv [([102; 49], [[97]; [98; 32; 83]]); ([102; 50], [[99]])] [] [] false.
+  mkEnv [([102; 49], [[97]; [98; 32; 83]]); ([102; 50], [[99]])] [] [] false None.
 Definition ex_hist_prog : sprog :=
   mkProg [] [mkSRule (SPRange (mkPat [] (CHas 83)) (mkPat [] (CHas 69))) (Some [STrace 1 []])] [] [].
 Example C11_ex_history :
@@ -436,7 +442,7 @@ Proof. vm_compute. reflexivity. Qed.
 (* non-vacuity: the hypotheses are met by concrete programs, and the conclusions compute *)
 
 Definition ex_env : env :=
-  mkEnv [([102; 49], [[97]; [98; 32; 83]]); ([102; 50], [[99]])] [] [[103; 48]] false.
+  mkEnv [([102; 49], [[97]; [98; 32; 83]]); ([102; 50], [[99]])] [] [[103; 48]] false None.
 (* BEGIN { }  { T(1) ; getline g0 }  END { T(9) }   over operands  f1 g0=1 "" f2 *)
 Definition ex_prog : sprog :=
   mkProg [] [mkSRule SPNone (Some [STrace 1 [[103; 48]]; SGetline SMain (TVar [103; 48])])] [STrace 9 []] [].
@@ -479,6 +485,18 @@ Proof. vm_compute. reflexivity. Qed.
 Example C11_ex_pure_pat :
   pure_pat (list stmt) (sstep ex_range_prog) (senter ex_range_prog) ex_env 5 (BPat 0 false) (fun r => mem_byte 83 r).
 Proof. intros u s. exists []. reflexivity. Qed.
+
+(* CSV mode (separator 44): { getline g0; T(1) } over f1 = ["a,b,c"; "d"]: after the getline into g0
+   the current record still has its three fields (the seeded-defect shape of round 3) *)
+Definition ex_csv_env : env := mkEnv [([102; 49], [[97; 44; 98; 44; 99]; [100]])] [] [[103; 48]] false (Some 44).
+Definition ex_csv_prog : sprog :=
+  mkProg [] [mkSRule SPNone (Some [SGetline SMain (TVar [103; 48]); STrace 1 [[103; 48]]])] [] [].
+Example C11_ex_csv_getline_var :
+  match script_exec ex_csv_env ex_csv_prog 100 [[102; 49]] [] with
+  | FOk _ s => out s = [OTrace 1 2 2 [102; 49] [97; 44; 98; 44; 99] 3 1 [[100]] [[97]; [98]; [99]]]
+  | _ => False
+  end.
+Proof. vm_compute. reflexivity. Qed.
 
 (* assignment operand parsing: "g0=x y" *)
 Example C11_ex_assign : parse_assign [103; 48; 61; 120; 32; 121] = Some ([103; 48], [120; 32; 121]).
